@@ -427,12 +427,8 @@ func c07Compile(text []byte, serial uint32, dir string, s c07Setting) (string, e
 		})
 		done <- c07Result{p, err}
 	}()
-	if s.mode() != "batch" {
-		r := <-done
-		return r.path, r.err, false
-	}
 	start := time.Now()
-	var confirmedAt time.Time
+	var confirmedAt, stuckSince time.Time
 	tick := time.NewTicker(500 * time.Millisecond)
 	defer tick.Stop()
 	for {
@@ -443,6 +439,22 @@ func c07Compile(text []byte, serial uint32, dir string, s c07Setting) (string, e
 			if time.Since(start) < 2*time.Second {
 				continue
 			}
+			// any mode: nothing of the compilation can run any more, for 15 s in a row
+			if time.Since(start) >= 10*time.Second {
+				if c07NothingCanRun("verif/kit.Compile") {
+					if stuckSince.IsZero() {
+						stuckSince = time.Now()
+					} else if time.Since(stuckSince) >= 15*time.Second {
+						c07HangKind = "stuck"
+						return "", nil, true
+					}
+				} else {
+					stuckSince = time.Time{}
+				}
+			}
+			if s.mode() != "batch" {
+				continue
+			}
 			if !c07BatchDeadlocked() {
 				confirmedAt = time.Time{}
 				continue
@@ -450,10 +462,48 @@ func c07Compile(text []byte, serial uint32, dir string, s c07Setting) (string, e
 			if confirmedAt.IsZero() {
 				confirmedAt = time.Now()
 			} else if time.Since(confirmedAt) >= 5*time.Second {
+				c07HangKind = "batch-limiter"
 				return "", nil, true
 			}
 		}
 	}
+}
+
+// c07HangKind says which detector ended the last hung compilation.
+var c07HangKind string
+
+// c07NothingCanRun inspects a dump of all goroutines: the goroutine that called
+// the compiler is still inside it, and every goroutine with a frame of the
+// repository on its stack is parked on a channel, a lock, a wait group or a
+// condition variable (none running, runnable, in a system / cgo call, sleeping
+// or waiting for I/O).  Goroutines leaked by earlier error-path cases are parked
+// for good and do not matter; compilations run one at a time.
+func c07NothingCanRun(marker string) bool {
+	buf := make([]byte, 16<<20)
+	buf = buf[:runtime.Stack(buf, true)]
+	inCompiler := false
+	for _, g := range strings.Split(string(buf), "\n\n") {
+		if !strings.Contains(g, "facebookincubator/dns/dnsrocks") {
+			continue
+		}
+		head := g
+		if i := strings.IndexByte(g, '\n'); i >= 0 {
+			head = g[:i]
+		}
+		parked := false
+		for _, st := range []string{"[chan send", "[chan receive", "[select", "[semacquire", "[sync.Mutex.Lock", "[sync.RWMutex", "[sync.WaitGroup.Wait", "[sync.Cond.Wait"} {
+			if strings.Contains(head, st) {
+				parked = true
+			}
+		}
+		if !parked {
+			return false
+		}
+		if strings.Contains(g, marker) {
+			inCompiler = true
+		}
+	}
+	return inCompiler
 }
 
 // c07BatchDeadlocked inspects a dump of all goroutines.  True iff
@@ -595,9 +645,42 @@ func (r *c07Runner) exp(b kit.Backend) *c07Exp {
 	if e, ok := r.exps[b]; ok {
 		return e
 	}
-	e := c07Expect(r.lines, r.c.Serial, b, b == kit.RDBv1)
-	r.exps[b] = e
-	return e
+	// the reference itself calls into the repository (line codec, derived subnet
+	// tables): guarded like a compilation, a hang there is a hang of that code
+	var e *c07Exp
+	done := make(chan struct{})
+	go func() {
+		e = c07ExpectGuarded(r.lines, r.c.Serial, b, b == kit.RDBv1)
+		close(done)
+	}()
+	start := time.Now()
+	var stuckSince time.Time
+	tick := time.NewTicker(500 * time.Millisecond)
+	defer tick.Stop()
+	for {
+		select {
+		case <-done:
+			r.exps[b] = e
+			return e
+		case <-tick.C:
+			if time.Since(start) < 10*time.Second {
+				continue
+			}
+			if !c07NothingCanRun("props.c07ExpectGuarded") {
+				stuckSince = time.Time{}
+				continue
+			}
+			if stuckSince.IsZero() {
+				stuckSince = time.Now()
+			} else if time.Since(stuckSince) >= 15*time.Second {
+				return nil
+			}
+		}
+	}
+}
+
+func c07ExpectGuarded(lines [][]byte, serial uint32, b kit.Backend, keepOrder bool) *c07Exp {
+	return c07Expect(lines, serial, b, keepOrder)
 }
 
 // c07Run executes every setting of the case; record=false while replaying.
@@ -614,11 +697,19 @@ func c07Run(t kit.Fataler, c *c07Case, record bool) {
 	for _, s := range c.Settings {
 		b := s.backend()
 		exp := r.exp(b)
+		if exp == nil {
+			fail(s, "compile-hang/line-codec", "converting the file line by line and marshalling the derived subnet tables (the reference the compiled database is compared with, all repository code) never returns: for 15 s every goroutine with repository code on its stack has been parked on a channel, lock or wait group")
+			return
+		}
 		dir := kit.Scratch("c07")
 		t0 := time.Now()
 		path, err, hung := c07Compile(r.text, c.Serial, dir, s)
 		if c07Timing {
 			fmt.Fprintf(os.Stderr, "C07-TIMING %s %s lines=%d compile=%.3fs\n", c.Kind, s, len(r.lines), time.Since(t0).Seconds())
+		}
+		if hung && c07HangKind == "stuck" {
+			fail(s, "compile-hang/"+s.mode(), "the compilation never returns: after %.0f s its goroutine is still inside the compiler and, for the last 15 s, every goroutine with repository code on its stack has been parked on a channel, lock or wait group (nothing can make progress)", time.Since(t0).Seconds())
+			return
 		}
 		if hung {
 			// the directory stays: the stuck compiler still owns it
@@ -721,7 +812,10 @@ func (r *c07Runner) book(s c07Setting, exp *c07Exp) {
 			boundary += fmt.Sprintf("+aligned%d", sh.aligned)
 		}
 	case "batch":
-		order := r.exp(kit.RDBv1).order // same emission order for v1 and v2
+		var order []string // same emission order for v1 and v2
+		if e := r.exp(kit.RDBv1); e != nil {
+			order = e.order
+		}
 		sh.batches, sh.spanKeys = c07BatchSpan(order, s.BatchSize)
 		sh.parallelMode = s.Workers != 1 || sh.batches > 1
 		kit.Class("batches:" + c07Bin(sh.batches))
